@@ -1,4 +1,5 @@
 import SE.Proofs.Listener
+import SE.Props.C17
 /-
 C18 — Listeners frame lines identically on every transport and account for all of them.
 The same payload produces the same events whether it arrives as a UDP datagram, a Unixgram datagram
@@ -245,6 +246,58 @@ theorem each_line_once_tcp (p : Bytes) (hcr : cr ∉ p)
       fun q hq => stripCR_of_not_mem (fun hc => hcr (mem_of_mem_splitOn hq hc))
     rw [List.map_congr_left this, List.map_id']
   exact ⟨h, by rw [h]; exact joinWith_splitOn lf p⟩
+
+/-! ## 4b. … and relayed exactly once -/
+
+/-- Listener and relay composed. Let the relay (packet length `n`) be fed by listeners that handle the datagrams
+    `dgrams` (in the order in which their `RelayLine` calls reach the relay; `hcalls`: the `.line` labels of the
+    schedule are exactly `relayCallsOf` of the datagrams' lines), under ANY schedule of the sender goroutine's steps in
+    between, all sends succeeding. Once channel and buffer are empty (at the latest after the next tick,
+    `SE.Props.C17.tick_forwards_everything_dequeued`), the bytes received by the target are exactly the non-empty lines
+    of the datagrams that fit, in order, each exactly once and followed by one newline. -/
+theorem datagram_lines_relayed_once (n : Nat) (dgrams : List Bytes) (sched : List RelayLabel) (s : RelaySt)
+    (hcalls : linesOf sched = relayCallsOf (dgrams.flatMap datagramLines))
+    (h : relayRun (relayInit n) sched = some s) (hok : AllOk sched) (hc : s.chan = []) (hb : s.buffer = []) :
+    s.sent.flatten =
+      (((dgrams.flatMap datagramLines).filter (lineFits n)).map (· ++ [lf])).flatten := by
+  rw [SE.Props.C17.all_forwarded_at_quiescence n sched s h hok hc hb,
+    (SE.Props.C17.accepted_lines_intact n sched).1, hcalls]
+  unfold relayCallsOf
+  rw [List.filter_filter]
+  have hf : ∀ l : Bytes, (lineFits n l && !l.isEmpty) = lineFits n l := by
+    intro l; unfold lineFits; cases l.isEmpty <;> simp
+  simp only [hf]
+  congr 1
+  apply List.map_congr_left
+  intro l hl
+  have hmem : l ∈ dgrams.flatMap datagramLines := (List.mem_filter.mp hl).1
+  obtain ⟨p, _, hlp⟩ := List.mem_flatMap.mp hmem
+  have hnl : lf ∉ l := (each_line_once p).2 l hlp
+  unfold terminate
+  have : l.getLast? ≠ some newline := by
+    intro hlast
+    exact hnl (List.mem_of_getLast? hlast)
+  rw [if_neg (by simpa using this)]
+  rfl
+
+/-- the same for a TCP connection: the `RelayLine` calls are `relayCallsOf` of the connection's lines -/
+theorem tcp_lines_relayed_once (n : Nat) (stream : Bytes) (sched : List RelayLabel) (s : RelaySt)
+    (hcalls : linesOf sched = relayCallsOf (tcpLinesOfStream stream).lines)
+    (h : relayRun (relayInit n) sched = some s) (hok : AllOk sched) (hc : s.chan = []) (hb : s.buffer = []) :
+    s.sent.flatten = (((tcpLinesOfStream stream).lines.filter (lineFits n)).map terminate).flatten := by
+  rw [SE.Props.C17.all_forwarded_at_quiescence n sched s h hok hc hb,
+    (SE.Props.C17.accepted_lines_intact n sched).1, hcalls]
+  unfold relayCallsOf
+  rw [List.filter_filter]
+  have hf : ∀ l : Bytes, (lineFits n l && !l.isEmpty) = lineFits n l := by
+    intro l; unfold lineFits; cases l.isEmpty <;> simp
+  simp only [hf]
+
+/-- non-vacuity: a schedule that satisfies the hypotheses for the datagram "ab\n\ncd" and packet length 8 -/
+example : ∃ sched s, linesOf sched = relayCallsOf ([[97, 98, 10, 10, 99, 100]].flatMap datagramLines) ∧
+    relayRun (relayInit 8) sched = some s ∧ AllOk sched ∧ s.chan = [] ∧ s.buffer = [] ∧
+    s.sent = [[97, 98, 10, 99, 100, 10]] :=
+  ⟨[.line [97, 98], .line [99, 100], .deq true, .deq true, .tick true], _, by decide, rfl, by decide, rfl, rfl, rfl⟩
 
 /-! ## 5. The UDP packet queue -/
 
